@@ -193,6 +193,7 @@ type Result struct {
 	Err          string
 	Steps        int64
 	Merges       int
+	Restarts     int
 	Forks        int
 	Samples      []string
 	Bounds       map[string]int64
@@ -273,7 +274,10 @@ func (e *Engine) info(fn *ssa.Function) *fnInfo {
 
 func (e *Engine) newObject(leaf []types.Type, n int, name string) *Object {
 	e.objN++
-	return &Object{ID: e.objN, Slots: make([]Value, n), Leaf: leaf, Name: name, Fresh: len(e.journal)}
+	if n > bigObject {
+		return &Object{ID: e.objN, N: n, Big: map[int]Value{}, Leaf: leaf, Name: name}
+	}
+	return &Object{ID: e.objN, N: n, Slots: make([]Value, n), Leaf: leaf, Name: name}
 }
 
 func (e *Engine) allocType(t types.Type, name string) *Object {
@@ -340,7 +344,6 @@ func (e *Engine) globalObj(x *Exec, g *ssa.Global) *Object {
 	}
 	t := g.Type().(*types.Pointer).Elem()
 	o := e.allocType(t, g.String())
-	o.Fresh = -1
 	e.glob[g] = o
 	e.ensureInit(x, g.Pkg)
 	return o
